@@ -323,6 +323,13 @@ def tlc_validate(ctx, module, cfg_name, trace_files, trace_name, overrides=None,
             ctx.transitions += r["states"]
             rejects += parse_rejects(out)
             ctx.unmodelled += len(re.findall(r'^<<\s*"UNMODELLED"', out, re.M))
+            nd = len(parse_tagged(out, "DRIFT"))
+            if nd:
+                ctx.extra["planner_design_drift_records"] = ctx.extra.get("planner_design_drift_records", 0) + nd
+                ex = ctx.extra.setdefault("planner_design_drift_examples", [])
+                for t in parse_tagged(out, "DRIFT"):
+                    if len(ex) < 5:
+                        ex.append(t[:500])
             shutil.rmtree(d, ignore_errors=True)
         running = still
         if time.time() > deadline:
@@ -332,6 +339,23 @@ def tlc_validate(ctx, module, cfg_name, trace_files, trace_name, overrides=None,
             time.sleep(0.05)
     ctx.traces += total
     return rejects
+
+
+def parse_tagged(out, tag):
+    """PrintT(<<tag, ...>>) tuples as single strings (TLC wraps long tuples over several lines)."""
+    res, buf = [], None
+    for line in out.splitlines():
+        if buf is None:
+            if line.startswith('<<"%s"' % tag) or line.startswith('<< "%s"' % tag):
+                buf = line
+            else:
+                continue
+        else:
+            buf += " " + line.strip()
+        if buf.count("<<") == buf.count(">>"):
+            res.append(buf)
+            buf = None
+    return res
 
 
 def parse_rejects(out):
